@@ -16,12 +16,14 @@ def leVal : List Nat → Nat
   | [] => 0
   | b :: bs => b + 256 * leVal bs
 
+/-- `cnt` consecutive `n`-byte little-endian values -/
+def leWordsN (n : Nat) : Nat → List Nat → List Nat
+  | 0, _ => []
+  | cnt+1, bs => leVal (bs.take n) :: leWordsN n cnt (bs.drop n)
+
 /-- split a byte list into `n`-byte little-endian values (a trailing partial group is dropped;
-    callers always pass a multiple of `n` bytes) -/
-def leWords (n : Nat) (bs : List Nat) : List Nat :=
-  if h : n = 0 ∨ bs.length < n then [] else leVal (bs.take n) :: leWords n (bs.drop n)
-termination_by bs.length
-decreasing_by simp [List.length_drop]; omega
+    callers always pass a multiple of `n` bytes): `bytemuck::cast_slice_mut` + `from_le` -/
+def leWords (n : Nat) (bs : List Nat) : List Nat := leWordsN n (bs.length / n) bs
 
 namespace Bitmap
 
